@@ -143,9 +143,12 @@ class Embed:
 
 
 class Method:
-    """doc: None | ('bad', text) | ('req', verb, path)"""
+    """doc: None | ('bad', text) | ('req', verb, path).
+    alias: None | (pairs, text): a second doc line `//shoot: alias=<text>`; pairs = what parseAlias finds in it"""
     def __init__(self, name, doc, params, results):
         self.name, self.doc, self.params, self.results = name, doc, list(params), list(results)
+        self.alias = None
+        self.alias_first = False
 
     def coq(self):
         if self.doc is None:
@@ -153,14 +156,17 @@ class Method:
         elif self.doc[0] == "bad":
             d = "MDBad"
         else:
-            d = "(MDReq %s %s)" % (cs(self.doc[1]), cs(self.doc[2]))
+            pairs = self.alias[0] if self.alias else []
+            d = "(MDReq %s %s %s)" % (cs(self.doc[1]), cs(self.doc[2]), clist("(%s, %s)" % (cs(k), cs(v)) for k, v in pairs))
         return "IMethod %s %s %s %s" % (cs(self.name), d, clist(p.coq() for p in self.params),
                                         clist(p.coq() for p in self.results))
 
     def go(self):
         s = ""
+        al = "\t//shoot: alias=%s\n" % self.alias[1] if (self.alias and self.doc is not None) else ""
         if self.doc is not None:
-            s += "\t" + (self.doc[1] if self.doc[0] == "bad" else "//shoot: %s(%s)" % (self.doc[1], self.doc[2])) + "\n"
+            line = "\t" + (self.doc[1] if self.doc[0] == "bad" else "//shoot: %s(%s)" % (self.doc[1], self.doc[2])) + "\n"
+            s += (al + line) if self.alias_first else (line + al)
         res = go_params(self.results)
         if len(self.results) > 1 or (self.results and self.results[0].names):
             res = "(" + res + ")"
@@ -637,6 +643,8 @@ def rest_method(rng, k, structs):
                             tstar(tid("error")), ("map", tid("string"), tid("any")), ("arr", tid("any")), tstar(tid("any"))])
         results = [Param([], first)] + results
     m = Method(name, ("req", verb, path), params, results)
+    if rng.random() < 0.3 and all(p.names for p in params):
+        set_alias(rng, m, malformed=rng.random() < 0.3)
     if any(not p.names for p in params):
         # unnamed parameters are not inspected at all: a body verb would find no body parameter
         if verb.upper() in BODY_VERBS:
@@ -1119,6 +1127,67 @@ def d_rest_two_maps(rng, c):
     return t.name
 
 
+MALFORMED_ALIAS = ["userID:id", "{uid:id", "uid:id}", "{uid id}", "{:id}", "{uid:}", "{}", "{u.id:id}", "uid=id", "{{", "{a b:c}"]
+
+
+def set_alias(rng, m, malformed=False):
+    """an alias= directive for method m, tied to what consumes it: a parameter that stands for a path placeholder,
+    names of scalar / struct / map parameters.  Keys and values are distinct (the reversal iterates a Go map)."""
+    pairs = []
+    ph = re.findall(r"{(\w+)}", m.doc[2]) if m.doc and m.doc[0] == "req" else []
+    names = [n for p in m.params for n in p.names if n != "_" and p.typ != tsel("context", "Context")]
+    used_k, used_v = set(), set()
+    for name in ph[:2]:
+        # the placeholder is the alias of a parameter with another name
+        k = "p_" + name
+        tgt = next((p for p in m.params if name in p.names), None)
+        if tgt is not None and len(tgt.names) == 1:
+            tgt.names = [k]
+        elif tgt is None:
+            m.params.append(Param([k], rng.choice([tid("int"), tid("string"), tstar(tid("int"))])))
+        else:
+            continue
+        pairs.append((k, name)); used_k.add(k); used_v.add(name)
+    for n in names:
+        if rng.random() < 0.5 and n not in used_k and ("a_" + n) not in used_v and not n.startswith("p_"):
+            pairs.append((n, "a_" + n)); used_k.add(n); used_v.add("a_" + n)
+    if not pairs:
+        pairs = [("zz", "unused")]
+    text = ",".join("{%s:%s}" % kv for kv in pairs)
+    if malformed:
+        k = rng.choice(["none", "none", "partial"])
+        if k == "partial" and len(pairs) > 1:
+            text = "{%s:%s}," % pairs[0] + rng.choice(MALFORMED_ALIAS)
+            pairs = pairs[:1]
+        else:
+            text = rng.choice(MALFORMED_ALIAS)
+            pairs = []
+    else:
+        text = rng.choice([text, text, text + ";", text.replace(":", ": ")])
+    m.alias = (pairs, text)
+    m.alias_first = rng.random() < 0.3
+
+
+def d_rest_alias(rng, c):
+    """a malformed (or well-formed) alias= directive on a method that CONSUMES the directive's result: a struct parameter with
+    fields, a map parameter, path placeholders"""
+    f, t = rest_target(rng, c)
+    m = rng.choice(rest_methods(t))
+    ss = [x for g in c.files for x in getattr(g, "structs", [])]
+    for p in m.params:
+        if not p.names:
+            p.names = ["n%d" % m.params.index(p)]
+    has_struct = any(core_t(p.typ) in [tid(x) for x in ss] or (core_t(p.typ)[0] == "sel" and core_t(p.typ)[1] != "context") for p in m.params)
+    if ss and not has_struct:
+        m.params.append(Param(["req"], rng.choice([tid(ss[0]), tstar(tid(ss[0]))])))
+    if m.doc[1].upper() in ("GET", "DELETE") and not any(p.typ[0] == "map" for p in m.params) and rng.random() < 0.7:
+        m.params.append(Param(["qm"], ("map", tid("string"), tid("string"))))
+    if "{" not in m.doc[2] and rng.random() < 0.7:
+        m.doc = ("req", m.doc[1], rng.choice(['"/items/{id}"', '"/a/{id}/b/{name}"']))
+    set_alias(rng, m, malformed=rng.random() < 0.75)
+    return t.name
+
+
 def d_rest_unnamed(rng, c):
     """unnamed or blank parameters"""
     f, t = rest_target(rng, c)
@@ -1355,7 +1424,7 @@ PKG_DAMAGES = {
              d_enum_undefined_type, d_enum_no_consts, d_enum_named_chain, d_type_wrong_kind],
     "rest": [d_rest_param, d_rest_param, d_rest_results, d_rest_results, d_rest_results, d_rest_bad_path, d_rest_ambiguous,
              d_rest_doc, d_rest_embed, d_rest_embed, d_rest_wrong_kind, d_rest_needs_body, d_rest_two_maps,
-             d_rest_unnamed, d_rest_unnamed, d_rest_ptr_path],
+             d_rest_unnamed, d_rest_unnamed, d_rest_ptr_path, d_rest_alias, d_rest_alias, d_rest_alias],
     "map": [d_map_manual, d_map_manual, d_map_manual, d_map_dest_type, d_map_dest_type, d_map_src_kind, d_map_dest_pkg,
             d_embed_named, d_embedded_universe, d_map_shootnew, d_map_shootnew],
 }
